@@ -60,7 +60,6 @@ func (c *Ctx) checkPins(f *FC, rule string, pins []pin) {
 	}
 }
 
-
 // nfInliningNewHelpers: the normal form of fn with every package-local function that did not exist when the pins
 // were reviewed (baselineFuncs) inlined at its calls — so that extracting a helper out of a pinned function, the
 // most common behaviour-preserving refactoring, does not change the compared form.  Returns the helpers inlined.
@@ -101,7 +100,6 @@ func (f *FC) nfInliningNewHelpers(fn *ir.Func, keepShared bool) (string, []strin
 	sort.Strings(names)
 	return got, names
 }
-
 
 // canonDiag replaces the message literal of a no-return diagnostic call by <msg>: the wording of diagnostics is
 // not fixed by any property, so rewording one must not change a compared form.  (Text that is *emitted into the
